@@ -24,7 +24,7 @@ def run(res, tier, seed, replay):
     vpl.proof_stage(res, LIBS)
     exe = vpl.build_harness("c14")
     drv = vpl.build_driver("C14")
-    seeds = [seed] if tier == "quick" else [seed + 1000 * k for k in range(6)]
+    seeds = [seed] if tier == "quick" else [seed + 1000 * k for k in range(4)]
     if replay and replay.get("replay", {}).get("only"):
         rp = replay["replay"]
         jobs = [(int(rp.get("seed", seed)), ["--only", rp["only"]])]
